@@ -972,3 +972,37 @@ func (c *Ctx) fieldStoreRule(p *Program, rule, what string, f *ssa.Function, fie
 		c.ok(rule, construct, fmt.Sprintf("%d store(s) into %s, each of a value matching %s", n, field, want), p.fnPos(f))
 	}
 }
+
+// noDataOnError: every return of f (results: data, error) that may carry an error returns nil data.
+func (c *Ctx) noDataOnError(p *Program, rule string, f *ssa.Function) {
+	if f == nil {
+		c.undecided(rule, "an exit that may report an error returns no data", "anchor function does not resolve", "")
+		return
+	}
+	var bad []string
+	nret := 0
+	for _, b := range f.Blocks {
+		ret, ok := b.Instrs[len(b.Instrs)-1].(*ssa.Return)
+		if !ok || len(ret.Results) != 2 {
+			continue
+		}
+		nret++
+		isNil := func(v ssa.Value) bool {
+			k, ok := v.(*ssa.Const)
+			return ok && k.Value == nil
+		}
+		if !isNil(ret.Results[1]) && !isNil(ret.Results[0]) {
+			bad = append(bad, fmt.Sprintf("%s returns %s together with a possibly non-nil error", p.pos(ret.Pos()), descVal(ret.Results[0])))
+		}
+	}
+	construct := fname(f) + ": an exit that may report an error returns no data"
+	switch {
+	case nret == 0:
+		c.undecided(rule, construct, "no return with two results found", p.fnPos(f))
+	case len(bad) > 0:
+		sort.Strings(bad)
+		c.bad(rule, construct, strings.Join(bad, "; "), p.fnPos(f))
+	default:
+		c.ok(rule, construct, fmt.Sprintf("%d exits: each returns either (data, nil) or (nil, error)", nret), p.fnPos(f))
+	}
+}
